@@ -3,6 +3,7 @@ import MW.Staking.Query
 import MW.Staking.Effects
 import MW.Inv.OracleOptional
 import MW.Inv.Demo
+import MW.Staking.Interface
 /-!
 # C15 — Rates posted to the oracle are the post-transaction rates; the oracle is optional
 -/
@@ -232,5 +233,15 @@ the first stake into an empty pool posts 1/1 -/
 example : getRates { (default : CState) with st := { (default : St) with totalNative := 3001, totalLst := 1500 } }
     = .ok (2000666666666666666, 499833388870376541) := rfl
 example : decimalToString 2000666666666666666 = "2.000666666666666666" := by decide
+
+/-- the statements of this file quantify over every message the staking contract accepts: the `ExecuteMsg` the source
+declares (table regenerated from /repo's `msg.rs` on every run) has exactly the variants, fields and types of the
+model's `ExecMsg`, and the contract exports exactly the modelled entry points.  A message or entry point added to the
+source — which no generated history would exercise — breaks this theorem -/
+theorem messages_are_the_modelled_ones :
+    MW.Generated.Interface.staking_execute = MW.Interface.model_staking_execute
+    ∧ (∀ m : MW.Staking.ExecMsg, MW.Interface.execTag m ∈ MW.Interface.names MW.Generated.Interface.staking_execute)
+    ∧ MW.Generated.Interface.staking_entry_points = ["execute", "instantiate", "migrate", "query", "reply", "sudo"] :=
+  ⟨MW.Interface.staking_execute_eq, MW.Interface.staking_execute_covered.2, MW.Interface.staking_entry_points_eq⟩
 
 end MW.Props.C15
